@@ -93,6 +93,9 @@ pub fn scanner_skips(s: &str) -> bool {
 }
 
 /// Own token type for stream-level properties: records which input tokens it was built from.
+/// The "separated from predecessor" hint is carried in two realistic ways: as a flag on the token
+/// itself (`sep`, `via_prev == false`) or as a pause recorded on the preceding token
+/// (`pause_after`, read through the `previous` argument of `nt_separated`, `via_prev == true`).
 #[derive(Clone, Debug, PartialEq, Eq, Hash, Serialize, Deserialize)]
 pub struct Tk {
     pub ids: Vec<usize>,
@@ -101,10 +104,14 @@ pub struct Tk {
     pub sep: bool,
     pub nan: bool,
     pub replaced: bool,
+    #[serde(default)]
+    pub pause_after: bool,
+    #[serde(default)]
+    pub via_prev: bool,
 }
 impl Tk {
     pub fn new(id: usize, text: &str) -> Tk {
-        Tk { ids: vec![id], text: text.to_string(), lower: text.to_lowercase(), sep: false, nan: false, replaced: false }
+        Tk { ids: vec![id], text: text.to_string(), lower: text.to_lowercase(), sep: false, nan: false, replaced: false, pause_after: false, via_prev: false }
     }
 }
 impl Token for &Tk {
@@ -114,20 +121,37 @@ impl Token for &Tk {
     fn text_lowercase(&self) -> &str {
         &self.lower
     }
-    fn nt_separated(&self, _previous: &Self) -> bool {
-        self.sep
+    fn nt_separated(&self, previous: &Self) -> bool {
+        if self.via_prev {
+            previous.pause_after
+        } else {
+            self.sep
+        }
     }
     fn not_a_number_part(&self) -> bool {
         self.nan
     }
 }
+thread_local! {
+    /// how many of the replaced tokens the replacement constructor reads from the iterator it is handed
+    /// (a constructor is free to read none, some or all of them)
+    pub static CONSUME_LIMIT: std::cell::Cell<usize> = std::cell::Cell::new(usize::MAX);
+}
 impl Replace for Tk {
     fn replace<I: Iterator<Item = Self>>(replaced: I, data: String) -> Self {
+        let limit = CONSUME_LIMIT.with(|c| c.get());
         let mut ids = vec![];
-        for t in replaced {
-            ids.extend(t.ids);
+        let mut it = replaced;
+        let mut k = 0;
+        while k < limit {
+            match it.next() {
+                Some(t) => ids.extend(t.ids),
+                None => break,
+            }
+            k += 1;
         }
-        Tk { ids, lower: data.to_lowercase(), text: data, sep: false, nan: false, replaced: true }
+        drop(it);
+        Tk { ids, lower: data.to_lowercase(), text: data, sep: false, nan: false, replaced: true, pause_after: false, via_prev: false }
     }
 }
 pub fn plain_stream(words: &[&str]) -> Vec<Tk> {
@@ -161,16 +185,42 @@ pub fn fmt_th(bits: u64) -> String {
 /// no real annotator / ASR stream flags those (DESIGN.md §4.2).
 pub fn apply_hints(stream: &mut [Tk], hints: &[u8]) -> bool {
     let mut any = false;
-    for (i, tk) in stream.iter_mut().enumerate() {
-        if scanner_skips(&tk.text) {
+    let mut pred: Option<usize> = None;
+    for i in 0..stream.len() {
+        if scanner_skips(&stream[i].text) {
             continue;
         }
         let h = hints.get(i).copied().unwrap_or(0);
-        tk.sep = h & 0x0f == 1;
-        tk.nan = h >> 4 == 1;
-        any |= tk.sep || tk.nan;
+        let sep = h & 0x0f == 1;
+        stream[i].nan = h >> 4 == 1;
+        stream[i].sep = sep;
+        if sep {
+            if let Some(j) = pred {
+                // half of the hints are expressed as a pause recorded on the predecessor
+                if hints.get(j).copied().unwrap_or(0) & 0x20 == 0 {
+                    stream[i].via_prev = true;
+                    stream[j].pause_after = true;
+                }
+            }
+        }
+        any |= stream[i].sep || stream[i].nan;
+        pred = Some(i);
     }
     any
+}
+/// set / clear the separation hint of token i (both carriers)
+pub fn set_sep(stream: &mut [Tk], i: usize, on: bool, via_prev: bool) {
+    let pred = (0..i).rev().find(|&j| !scanner_skips(&stream[j].text));
+    stream[i].sep = on;
+    stream[i].via_prev = false;
+    if let Some(j) = pred {
+        if on && via_prev {
+            stream[i].via_prev = true;
+            stream[j].pause_after = true;
+        } else if !on {
+            stream[j].pause_after = false;
+        }
+    }
 }
 
 /// French only: true when the documented new/nine heuristic really set a `neuf` of this text aside
